@@ -19,7 +19,7 @@ func c04Tag(e *Env) {
 	// stores to Name come from a string assertion, stores to Priority from an int assertion or the constant 0
 	okName, okPrio := true, true
 	nName, nPrio := 0, 0
-	for _, b := range fn.Blocks {
+	for _, b := range unitBlocks(fn, 2) {
 		for _, ins := range b.Instrs {
 			st, ok := ins.(*ssa.Store)
 			if !ok {
@@ -51,7 +51,7 @@ func c04Tag(e *Env) {
 	r.Check(okPrio && nPrio >= 2, "R04.5", key+"#priority", fmt.Sprintf("the priority is the asserted int, unchanged, or 0 when absent (%d stores)", nPrio))
 	// mapping keys
 	keys := map[string]bool{}
-	for _, b := range fn.Blocks {
+	for _, b := range unitBlocks(fn, 2) {
 		for _, ins := range b.Instrs {
 			if lk, ok := ins.(*ssa.Lookup); ok {
 				if s, ok := constString(lk.Index); ok {
